@@ -1,5 +1,6 @@
 """C15 recorder: real HPKE sender/receiver contexts with an adversary in between, driven by histories that TLC generated from
 sys/HpkeChannel; plus set-up attempts.  Records outcomes and projections only."""
+import copy
 import json
 import os
 import sys
@@ -130,8 +131,34 @@ def channel_trace(tid, hist, r, curve, aead, mode, mismatch, full, want=None):
         cfg.update(haskey=False, key=[], basenonce=[], expsecret=[])
     sent = []
     events = []
+    if tid % 3 == 0 and hist:
+        # every third history: one or two calls in the wrong role at seeded positions (the model refuses them and changes nothing)
+        hist = list(hist)
+        for _ in range(r.choice([1, 2])):
+            hist.insert(r.randrange(len(hist) + 1), {"op": "wrongrole", "who": r.choice(["sender.unseal", "receiver.seal"])})
     for e in hist:
         ev = dict(e)
+        if e["op"] == "wrongrole":
+            try:
+                if e["who"] == "sender.unseal":
+                    # a message that WOULD open if the call were not refused: sealed by a twin of the sender's context at the sender's
+                    # present sequence number (the context holds only immutable values: a shallow copy is an independent twin)
+                    try:
+                        ct = copy.copy(sender).seal(b"to myself", None)
+                    except Exception:
+                        ct = rb(r, 40)
+                    sender.unseal(ct, None)
+                else:
+                    receiver.seal(rb(r, 8), None)
+                ev["exc"] = "none"
+            except Exception as x:
+                ev["exc"] = exc_class(x)
+            try:
+                ev.update(hasproj=True, sseq=lseq(sender._sequence), rseq=lseq(receiver._sequence))
+            except AttributeError:
+                ev.update(hasproj=False, sseq=0, rseq=0)
+            events.append(ev)
+            continue
         if e["op"] == "preset":
             v = M96 - (1000000 - e["v"])
             if sender._sequence == 0 and receiver._sequence == 0 and not events:
